@@ -208,16 +208,21 @@ pub fn ws_run() -> BoxedStrategy<String> {
 
 pub const RAW_LOOKALIKES: &[&str] = &["{{ x }}", "{% if %}", "{{", "{% endif", "{%- x -%}", "{{- y -}}", "{% assign x = 1 %}", "{% comment %}", "{% endfor %}", "}}", "%}", "{% if x", "{{ x |"];
 
+/// An end-tag look-alike that carries arguments is documented (escape_liquid) not to close the
+/// block: it is part of the verbatim body.
+pub const RAW_ENDLIKE: &[&str] = &["{% endraw x %}", "{%- endraw 1 -%}", "{% endraw | x %}"];
+
 pub fn raw_body() -> BoxedStrategy<String> {
     proptest::collection::vec(
         prop_oneof![
-            2 => proptest::sample::select(RAW_LOOKALIKES).prop_map(|s| s.to_string()),
-            2 => gen::plain_text(6),
-            1 => ws_run(),
+            4 => proptest::sample::select(RAW_LOOKALIKES).prop_map(|s| s.to_string()),
+            4 => gen::plain_text(6).prop_map(|s| s.replace("endraw", "endra_")),
+            2 => ws_run(),
+            1 => proptest::sample::select(RAW_ENDLIKE).prop_map(|s| s.to_string()),
         ],
         0..4,
     )
-    .prop_map(|v| v.concat().replace("endraw", "endra_"))
+    .prop_map(|v| v.concat())
     .boxed()
 }
 
